@@ -189,10 +189,15 @@ def finalize(ctx, explanation, not_decided, extra_assumptions=(), selftest=None,
         fi = idx0.funcs.get(q)
         if fi is not None:
             unreviewed_files.setdefault(fi.module.relpath, []).append(q.rsplit('.', 1)[-1])
+    unreviewed_q = [q for q in (getattr(idx0, 'unreviewed', []) or [])]
     for o in ctx.obligations():
         if o.status == VIOLATION and unreviewed_files:
             f = (o.loc or '').split(':')[0]
-            if f in unreviewed_files:
+            # a finding ABOUT the unreviewed function itself (a new override analysed as a whole) is definite: the construct
+            # of the obligation names that function
+            about_it = any(q in (o.construct or '') or (o.construct or '').startswith(q[len('mitxgraders.'):] if q.startswith('mitxgraders.') else q)
+                           for q in unreviewed_q)
+            if f in unreviewed_files and not about_it:
                 o.status = UNDECIDED
                 o.detail = 'not definite because unreviewed helper(s) %s in %s could not be inlined: %s' % (
                     ', '.join(sorted(set(unreviewed_files[f]))[:4]), f, o.detail)
